@@ -1,25 +1,53 @@
 //! C23 — cancellation is always reported as cancellation.
 //!
-//! For every explored operation (sign / read / ingredient import, per container) the harness
-//! first records the uncancelled progress trace, then re-runs the operation once for **every**
-//! callback index k answering `false` at k, and once with the cancel flag pre-set.
+//! For every explored operation the harness first records the uncancelled progress trace together
+//! with the source location (file, line) of every `check_progress` call reached (`#[track_caller]`
+//! hook), then re-runs the operation once for **every** callback index k: answering `false` at k,
+//! calling `Context::cancel()` inside callback k, and having another thread call `cancel()` while
+//! callback k runs; plus once with the cancel flag pre-set.
+//!
+//! Operations: read (embedded, box-hash bound, sidecar = manifest data + stream, fragmented BMFF,
+//! fixtures with ingredients, freshly built nested ingredient trees), sign (`save_to_stream`, every
+//! writable container), ingredient import, the placeholder / embeddable flows
+//! (`placeholder` + `update_hash_from_stream` + `sign_embeddable` for DataHash / BoxHash / BmffHash,
+//! `data_hashed_placeholder` + `sign_data_hashed_embeddable`), and the async twins of read / sign /
+//! ingredient import / sidecar / fragment; reads of an asset with a remote manifest and of a
+//! fixture whose certificate names an OCSP responder (fetching enabled) go through an in-process
+//! HTTP transport so that the FetchingRemoteManifest / FetchingOCSP checkpoints are reached (the
+//! latter replays the open finding `swallow-site:crypto/ocsp/fetch.rs`).
 //!
 //! Request lines (see lean/C2paModel/Model/C23.lean):
 //!   C23 cancel n=<callbacks of the uncancelled run> k=<index answered false>  -> cancelled <k+1>
+//!   C23 cancelin n=<…> k=<…>                                                  -> cancelled <k+1>
 //!   C23 flag n=<…>                                                            -> cancelled 1
+//!   C23 seq mode=<false|cancel|thread> k=<k> sites=<file:line,…>              -> cancelled <k+1>
+//!       (the checkpoints that very run reached; the model looks each one up in the table
+//!        regenerated from the sources and answers `unknown-site …` for a location that is no row)
 //!   C23 wf trace=<phase:step:total,…>                                         -> wf | bad
-//! The implementation reply for `cancel` is `cancelled <callbacks observed>` when the result is
-//! `Err(OperationCancelled)`, else `ok <callbacks>` / `err:<class> <callbacks>`.
+//!   C23 ingtree shape=<p|m(..)…>   -> the VerifyingIngredient/VerifyingSignature ticks of a read
+//!   C23 ingticks n=<n>             -> the VerifyingIngredient ticks of n plain ingredients
+//! The implementation reply for the cancelling requests is `cancelled <callbacks observed>` when
+//! the result is `Err(OperationCancelled)`, else `finished <callbacks>` / `err:<class> <callbacks>`.
 
 use std::{
-    io::Cursor,
+    future::Future,
+    io::{Cursor, Read},
     sync::{
         atomic::{AtomicUsize, Ordering},
         Arc, Mutex,
     },
+    time::Instant,
 };
 
-use c2pa::{Builder, Context, EphemeralSigner, Error, ProgressPhase, Reader};
+use async_trait::async_trait;
+use c2pa::http::{
+    http::{Request, Response},
+    AsyncHttpResolver, HttpResolverError, SyncHttpResolver,
+};
+use c2pa::{
+    verif_hooks::c23 as hook, AsyncSigner, Builder, Context, EphemeralSigner, Error, HashRange, ProgressPhase, Reader,
+    Signer, SigningAlg,
+};
 use vh::common::{fixtures, guarded, main_with, Rng, Run};
 use vh::sign::{definition, sign_asset, unsigned_sources};
 
@@ -27,96 +55,341 @@ fn main() {
     main_with("C23", run);
 }
 
-type Trace = Arc<Mutex<Vec<(String, u32, u32)>>>;
-
-fn settings() -> &'static str {
-    r#"{"verify":{"remote_manifest_fetch":false,"ocsp_fetch":false}}"#
+fn block_on<F: Future>(f: F) -> F::Output {
+    tokio::runtime::Builder::new_current_thread().enable_all().build().expect("runtime").block_on(f)
 }
 
-/// Context whose callback records every tick and answers `false` at invocation `k`.
-fn ctx_with(k: Option<usize>, trace: Trace, count: Arc<AtomicUsize>) -> c2pa::Result<Context> {
-    Ok(Context::new()
-        .with_settings(settings())?
-        .with_progress_callback(move |phase: ProgressPhase, step, total| {
-            let i = count.fetch_add(1, Ordering::SeqCst);
-            trace.lock().unwrap().push((format!("{phase:?}"), step, total));
-            Some(i) != k
-        }))
+/// The ephemeral signer behind the `AsyncSigner` trait.
+struct AsyncEph(EphemeralSigner);
+
+#[async_trait]
+impl AsyncSigner for AsyncEph {
+    async fn sign(&self, data: Vec<u8>) -> c2pa::Result<Vec<u8>> {
+        self.0.sign(&data)
+    }
+
+    fn alg(&self) -> SigningAlg {
+        self.0.alg()
+    }
+
+    fn certs(&self) -> c2pa::Result<Vec<Vec<u8>>> {
+        self.0.certs()
+    }
+
+    fn reserve_size(&self) -> usize {
+        self.0.reserve_size()
+    }
+}
+
+type Trace = Arc<Mutex<Vec<(String, u32, u32)>>>;
+
+/// In-process HTTP transport: answers every request with `body` (status 200), or fails when
+/// `body` is `None`. Lets the sweep reach the FetchingRemoteManifest / FetchingOCSP checkpoints
+/// without a network.
+struct Serve(Option<Arc<Vec<u8>>>);
+
+impl Serve {
+    fn reply(&self) -> Result<Response<Box<dyn Read>>, HttpResolverError> {
+        match &self.0 {
+            None => Err(HttpResolverError::Io(std::io::Error::other("offline"))),
+            Some(b) => Response::builder()
+                .status(200)
+                .header("content-length", b.len().to_string())
+                .body(Box::new(Cursor::new(b.as_ref().clone())) as Box<dyn Read>)
+                .map_err(HttpResolverError::Http),
+        }
+    }
+}
+
+impl SyncHttpResolver for Serve {
+    fn http_resolve(&self, _request: Request<Vec<u8>>) -> Result<Response<Box<dyn Read>>, HttpResolverError> {
+        self.reply()
+    }
+}
+
+#[async_trait]
+impl AsyncHttpResolver for Serve {
+    async fn http_resolve_async(&self, _request: Request<Vec<u8>>) -> Result<Response<Box<dyn Read>>, HttpResolverError> {
+        self.reply()
+    }
+}
+
+const REMOTE: &str = r#"{"verify":{"remote_manifest_fetch":true,"ocsp_fetch":false}}"#;
+const OCSP: &str = r#"{"verify":{"remote_manifest_fetch":false,"ocsp_fetch":true}}"#;
+const BASE: &str = r#"{"verify":{"remote_manifest_fetch":false,"ocsp_fetch":false}}"#;
+const BOX: &str = r#"{"verify":{"remote_manifest_fetch":false,"ocsp_fetch":false},"core":{"prefer_compress_manifests":true}}"#;
+const PREFER_BOX: &str = r#"{"verify":{"remote_manifest_fetch":false,"ocsp_fetch":false},"builder":{"prefer_box_hash":true}}"#;
+
+/// What the progress callback of one run does at invocation `k`.
+#[derive(Clone, Copy, PartialEq)]
+enum Mode {
+    /// answer `true` always
+    None,
+    /// answer `false` at k
+    False(usize),
+    /// call `Context::cancel()` on the own context inside callback k, answer `true`
+    CancelIn(usize),
+    /// a second thread calls `cancel()` while callback k waits for it, answer `true`
+    CancelThread(usize),
 }
 
 /// Where the callback finds the context it belongs to (filled in once the context is shared).
 type Slot = Arc<Mutex<Option<Arc<Context>>>>;
 
-/// Context whose callback always answers `true` but calls `Context::cancel()` on its own
-/// context during invocation `k`.
-fn ctx_cancelling_in_callback(k: usize, slot: Slot, count: Arc<AtomicUsize>) -> c2pa::Result<Context> {
-    Ok(Context::new()
-        .with_settings(settings())?
-        .with_progress_callback(move |_phase: ProgressPhase, _step, _total| {
+struct Probe {
+    trace: Trace,
+    count: Arc<AtomicUsize>,
+    slot: Slot,
+    last_tick: Arc<Mutex<Option<Instant>>>,
+}
+
+impl Probe {
+    fn new() -> Self {
+        Probe { trace: Default::default(), count: Default::default(), slot: Default::default(), last_tick: Default::default() }
+    }
+
+    fn ctx(&self, settings: &str, mode: Mode) -> c2pa::Result<Context> {
+        let (trace, count, slot, last) = (self.trace.clone(), self.count.clone(), self.slot.clone(), self.last_tick.clone());
+        Ok(Context::new().with_settings(settings)?.with_progress_callback(move |phase: ProgressPhase, step, total| {
             let i = count.fetch_add(1, Ordering::SeqCst);
-            if i == k {
-                if let Some(c) = slot.lock().unwrap().as_ref() {
-                    c.cancel();
+            trace.lock().unwrap().push((format!("{phase:?}"), step, total));
+            *last.lock().unwrap() = Some(Instant::now());
+            match mode {
+                Mode::None => true,
+                Mode::False(k) => i != k,
+                Mode::CancelIn(k) => {
+                    if i == k {
+                        if let Some(c) = slot.lock().unwrap().as_ref() {
+                            c.cancel();
+                        }
+                    }
+                    true
+                }
+                Mode::CancelThread(k) => {
+                    if i == k {
+                        let c = slot.lock().unwrap().clone();
+                        if let Some(c) = c {
+                            let _ = std::thread::spawn(move || c.cancel()).join();
+                        }
+                    }
+                    true
                 }
             }
-            true
         }))
+    }
+}
+
+/// ingredient tree of a claim (mirrors `Ing` of the Lean model)
+#[derive(Clone, Debug)]
+enum Ing {
+    Plain,
+    Manifest(Vec<Ing>),
+}
+
+fn shape(cs: &[Ing]) -> String {
+    cs.iter()
+        .map(|c| match c {
+            Ing::Plain => "p".to_string(),
+            Ing::Manifest(k) => format!("m({})", shape(k)),
+        })
+        .collect()
+}
+
+/// Signed JPEG whose claim has exactly the ingredient list `cs`.
+fn build_tree(cs: &[Ing], plain: &[u8]) -> c2pa::Result<Vec<u8>> {
+    let ctx = Context::new().with_settings(BASE)?.with_signer(EphemeralSigner::new("verif.test")?);
+    let mut b = Builder::from_context(ctx).with_definition(definition("c23 tree", "image/jpeg").as_str())?;
+    for (i, c) in cs.iter().enumerate() {
+        let data = match c {
+            Ing::Plain => plain.to_vec(),
+            Ing::Manifest(k) => build_tree(k, plain)?,
+        };
+        b.add_ingredient_from_stream(
+            serde_json::json!({"title": format!("ing{i}"), "relationship": "componentOf"}).to_string(),
+            "image/jpeg",
+            &mut Cursor::new(data),
+        )?;
+    }
+    let mut out = Cursor::new(Vec::new());
+    b.save_to_stream("image/jpeg", &mut Cursor::new(plain.to_vec()), &mut out)?;
+    Ok(out.into_inner())
 }
 
 #[derive(Clone)]
 enum Op {
-    Read { fmt: String, asset: Arc<Vec<u8>> },
-    Sign { fmt: String, src: Arc<Vec<u8>> },
-    Ingredient { fmt: String, src: Arc<Vec<u8>>, ing_fmt: String, ing: Arc<Vec<u8>> },
+    Read { fmt: String, asset: Arc<Vec<u8>>, tag: String, is_async: bool, tree: Option<String> },
+    Sidecar { fmt: String, manifest: Arc<Vec<u8>>, asset: Arc<Vec<u8>>, is_async: bool },
+    Fragment { init: Arc<Vec<u8>>, frag: Arc<Vec<u8>>, is_async: bool },
+    Sign { fmt: String, src: Arc<Vec<u8>>, is_async: bool },
+    Ingredient { fmt: String, src: Arc<Vec<u8>>, ing_fmt: String, ing: Arc<Vec<u8>>, is_async: bool },
+    /// `update_hash_from_stream` + `sign_embeddable` (direct workflow): kind = data | box | bmff | placeholder
+    Embeddable { kind: &'static str, fmt: String, src: Arc<Vec<u8>> },
+    /// `data_hashed_placeholder` + `sign_data_hashed_embeddable`
+    DataHashed { src: Arc<Vec<u8>>, is_async: bool },
+    /// read of an asset whose manifest is remote (XMP provenance URL), served by the in-process transport
+    Remote { asset: Arc<Vec<u8>>, manifest: Arc<Vec<u8>>, is_async: bool },
+    /// read with OCSP fetching enabled of a fixture whose signing certificate names an OCSP responder
+    Ocsp { asset: Arc<Vec<u8>> },
 }
 
 impl Op {
     fn name(&self) -> String {
+        let a = |x: &bool| if *x { "-async" } else { "" };
         match self {
-            Op::Read { fmt, .. } => format!("read:{fmt}"),
-            Op::Sign { fmt, .. } => format!("sign:{fmt}"),
-            Op::Ingredient { fmt, ing_fmt, .. } => format!("ingredient:{ing_fmt}->{fmt}"),
+            Op::Read { fmt, tag, is_async, .. } => format!("read{}:{tag}:{fmt}", a(is_async)),
+            Op::Sidecar { fmt, is_async, .. } => format!("sidecar{}:{fmt}", a(is_async)),
+            Op::Fragment { is_async, .. } => format!("fragment{}:video/mp4", a(is_async)),
+            Op::Sign { fmt, is_async, .. } => format!("sign{}:{fmt}", a(is_async)),
+            Op::Ingredient { fmt, ing_fmt, is_async, .. } => format!("ingredient{}:{ing_fmt}->{fmt}", a(is_async)),
+            Op::Embeddable { kind, fmt, .. } => format!("embeddable-{kind}:{fmt}"),
+            Op::DataHashed { is_async, .. } => format!("datahashed{}:image/jpeg", a(is_async)),
+            Op::Remote { is_async, .. } => format!("remote{}:image/jpeg", a(is_async)),
+            Op::Ocsp { .. } => "ocsp:image/jpeg".to_string(),
         }
     }
 
-    /// Runs the operation under `ctx`; Ok(summary) or the SDK error.
-    fn exec(&self, ctx: Context) -> c2pa::Result<String> {
-        self.exec_shared(ctx, None)
+    fn kind(&self) -> String {
+        self.name().split(':').next().unwrap_or("").to_string()
     }
 
-    /// As `exec`; the shared context is published in `slot` before the operation starts.
-    fn exec_shared(&self, ctx: Context, slot: Option<&Slot>) -> c2pa::Result<String> {
+    fn settings(&self) -> &'static str {
+        match self {
+            Op::Embeddable { kind: "box", .. } => PREFER_BOX,
+            Op::Remote { .. } => REMOTE,
+            Op::Ocsp { .. } => OCSP,
+            _ => BASE,
+        }
+    }
+
+    /// Runs the operation under `ctx`; the shared context is published in `slot` before it starts.
+    fn exec(&self, ctx: Context, slot: &Slot) -> c2pa::Result<String> {
         let share = |ctx: Context| -> Arc<Context> {
             let a = Arc::new(ctx);
-            if let Some(s) = slot {
-                *s.lock().unwrap() = Some(a.clone());
-            }
+            *slot.lock().unwrap() = Some(a.clone());
             a
         };
+        let with_signer = |ctx: Context, is_async: bool| -> c2pa::Result<Context> {
+            Ok(if is_async {
+                ctx.with_async_signer(AsyncEph(EphemeralSigner::new("verif.test")?))
+            } else {
+                ctx.with_signer(EphemeralSigner::new("verif.test")?)
+            })
+        };
         match self {
-            Op::Read { fmt, asset } => {
+            Op::Read { fmt, asset, is_async, .. } => {
                 let ctx = share(ctx);
-                let r = Reader::from_shared_context(&ctx).with_stream(fmt, Cursor::new(asset.as_ref().clone()))?;
+                let s = Cursor::new(asset.as_ref().clone());
+                let r = if *is_async {
+                    block_on(Reader::from_shared_context(&ctx).with_stream_async(fmt, s))?
+                } else {
+                    Reader::from_shared_context(&ctx).with_stream(fmt, s)?
+                };
                 Ok(format!("{:?}", r.validation_state()))
             }
-            Op::Sign { fmt, src } => {
-                let ctx = share(ctx.with_signer(EphemeralSigner::new("verif.test")?));
+            Op::Sidecar { fmt, manifest, asset, is_async } => {
+                let ctx = share(ctx);
+                let s = Cursor::new(asset.as_ref().clone());
+                let r = if *is_async {
+                    block_on(Reader::from_shared_context(&ctx).with_manifest_data_and_stream_async(manifest, fmt, s))?
+                } else {
+                    Reader::from_shared_context(&ctx).with_manifest_data_and_stream(manifest, fmt, s)?
+                };
+                Ok(format!("{:?}", r.validation_state()))
+            }
+            Op::Fragment { init, frag, is_async } => {
+                let ctx = share(ctx);
+                let (i, f) = (Cursor::new(init.as_ref().clone()), Cursor::new(frag.as_ref().clone()));
+                let r = if *is_async {
+                    block_on(Reader::from_shared_context(&ctx).with_fragment_async("video/mp4", i, f))?
+                } else {
+                    Reader::from_shared_context(&ctx).with_fragment("video/mp4", i, f)?
+                };
+                Ok(format!("{:?}", r.validation_state()))
+            }
+            Op::Sign { fmt, src, is_async } => {
+                let ctx = share(with_signer(ctx, *is_async)?);
                 let mut b = Builder::from_shared_context(&ctx).with_definition(definition("c23", fmt).as_str())?;
                 let mut out = Cursor::new(Vec::new());
-                b.save_to_stream(fmt, &mut Cursor::new(src.as_ref().clone()), &mut out)?;
+                let mut input = Cursor::new(src.as_ref().clone());
+                if *is_async {
+                    block_on(b.save_to_stream_async(fmt, &mut input, &mut out))?;
+                } else {
+                    b.save_to_stream(fmt, &mut input, &mut out)?;
+                }
                 Ok(format!("signed {}", out.into_inner().len()))
             }
-            Op::Ingredient { fmt, src, ing_fmt, ing } => {
-                let ctx = share(ctx.with_signer(EphemeralSigner::new("verif.test")?));
+            Op::Ingredient { fmt, src, ing_fmt, ing, is_async } => {
+                let ctx = share(with_signer(ctx, *is_async)?);
                 let mut b = Builder::from_shared_context(&ctx).with_definition(definition("c23", fmt).as_str())?;
-                b.add_ingredient_from_stream(
-                    serde_json::json!({"title": "ing", "relationship": "componentOf"}).to_string(),
-                    ing_fmt,
-                    &mut Cursor::new(ing.as_ref().clone()),
-                )?;
+                let ij = serde_json::json!({"title": "ing", "relationship": "componentOf"}).to_string();
+                let mut is = Cursor::new(ing.as_ref().clone());
                 let mut out = Cursor::new(Vec::new());
-                b.save_to_stream(fmt, &mut Cursor::new(src.as_ref().clone()), &mut out)?;
+                let mut input = Cursor::new(src.as_ref().clone());
+                if *is_async {
+                    block_on(b.add_ingredient_from_stream_async(ij, ing_fmt, &mut is))?;
+                    block_on(b.save_to_stream_async(fmt, &mut input, &mut out))?;
+                } else {
+                    b.add_ingredient_from_stream(ij, ing_fmt, &mut is)?;
+                    b.save_to_stream(fmt, &mut input, &mut out)?;
+                }
                 Ok(format!("signed {}", out.into_inner().len()))
+            }
+            Op::Embeddable { kind, fmt, src } => {
+                let ctx = share(with_signer(ctx, false)?);
+                let mut b = Builder::from_shared_context(&ctx).with_definition(definition("c23", fmt).as_str())?;
+                let mut stream = Cursor::new(src.as_ref().clone());
+                match *kind {
+                    "bmff" => {
+                        // the placeholder creates the BmffHash assertion that update_hash_from_stream fills in
+                        let _ = b.placeholder(fmt)?;
+                    }
+                    "placeholder" => {
+                        let ph = b.placeholder(fmt)?;
+                        // the caller embeds the composed placeholder after the SOI marker
+                        let mut with = src[..2].to_vec();
+                        with.extend_from_slice(&ph);
+                        with.extend_from_slice(&src[2..]);
+                        b.set_data_hash_exclusions(vec![HashRange::new(2, ph.len() as u64)])?;
+                        stream = Cursor::new(with);
+                    }
+                    _ => {}
+                }
+                b.update_hash_from_stream(fmt, &mut stream)?;
+                let m = b.sign_embeddable(fmt)?;
+                Ok(format!("embeddable {}", m.len()))
+            }
+            Op::Remote { asset, manifest, is_async } => {
+                let ctx = share(ctx.with_resolver(Serve(Some(manifest.clone()))).with_resolver_async(Serve(Some(manifest.clone()))));
+                let s = Cursor::new(asset.as_ref().clone());
+                let r = if *is_async {
+                    block_on(Reader::from_shared_context(&ctx).with_stream_async("image/jpeg", s))?
+                } else {
+                    Reader::from_shared_context(&ctx).with_stream("image/jpeg", s)?
+                };
+                Ok(format!("{:?} remote={}", r.validation_state(), r.remote_url().is_some()))
+            }
+            Op::Ocsp { asset } => {
+                let ctx = share(ctx.with_resolver(Serve(None)).with_resolver_async(Serve(None)));
+                let r = Reader::from_shared_context(&ctx).with_stream("image/jpeg", Cursor::new(asset.as_ref().clone()))?;
+                Ok(format!("{:?}", r.validation_state()))
+            }
+            Op::DataHashed { src, is_async } => {
+                let ctx = share(ctx);
+                let mut b = Builder::from_shared_context(&ctx).with_definition(definition("c23", "image/jpeg").as_str())?;
+                let signer = EphemeralSigner::new("verif.test")?;
+                let ph = b.data_hashed_placeholder(signer.reserve_size(), "image/jpeg")?;
+                let mut with = src[..2].to_vec();
+                with.extend_from_slice(&ph);
+                with.extend_from_slice(&src[2..]);
+                let mut dh = c2pa::assertions::DataHash::new("jumbf manifest", "sha256");
+                dh.add_exclusion(HashRange::new(2, ph.len() as u64));
+                dh.gen_hash_from_stream(&mut Cursor::new(with))?;
+                let m = if *is_async {
+                    block_on(b.sign_data_hashed_embeddable_async(&AsyncEph(signer), &dh, "image/jpeg"))?
+                } else {
+                    b.sign_data_hashed_embeddable(&signer, &dh, "image/jpeg")?
+                };
+                Ok(format!("embeddable {}", m.len()))
             }
         }
     }
@@ -127,6 +400,8 @@ fn err_class(e: &Error) -> String {
     d.chars().take_while(|c| c.is_ascii_alphanumeric()).collect()
 }
 
+/// Strict rule (mirrors `traceWfStrict`): steps ≥ 1, ≤ a non-zero total; within consecutive ticks of
+/// one phase the step strictly increases, a restart at 1 only directly after a completed pass.
 fn wf_oracle(trace: &[(String, u32, u32)]) -> Option<String> {
     for (i, (p, s, t)) in trace.iter().enumerate() {
         if *s < 1 {
@@ -136,34 +411,85 @@ fn wf_oracle(trace: &[(String, u32, u32)]) -> Option<String> {
             return Some(format!("tick {i} {p}:{s}/{t}: step exceeds non-zero total"));
         }
         if i > 0 {
-            let (pp, ps, _) = &trace[i - 1];
-            if pp == p && !(ps < s || *s == 1) {
-                return Some(format!("tick {i} {p}:{s}/{t} after {pp}:{ps}: steps do not increase within a run of one phase"));
+            let (pp, ps, pt) = &trace[i - 1];
+            if pp == p && !(ps < s || (*s == 1 && ps == pt)) {
+                return Some(format!("tick {i} {p}:{s}/{t} after {pp}:{ps}/{pt}: steps do not increase within a run of one phase"));
             }
         }
     }
     None
 }
 
+/// `…/sdk/src/store.rs` / `src/store.rs` -> `store.rs`
+fn norm_file(f: &str) -> String {
+    if let Some(i) = f.rfind("sdk/src/") {
+        return f[i + 8..].to_string();
+    }
+    f.strip_prefix("src/").unwrap_or(f).to_string()
+}
+
+struct Outcome {
+    res: Result<c2pa::Result<String>, String>,
+    seen: usize,
+    sites: Vec<(String, u32)>,
+    trace: Vec<(String, u32, u32)>,
+    suffix_ms: u128,
+}
+
+fn run_once(op: &Op, mode: Mode, preset_flag: bool) -> Outcome {
+    let p = Probe::new();
+    hook::start_recording();
+    let res = guarded(std::panic::AssertUnwindSafe(|| {
+        p.ctx(op.settings(), mode).and_then(|c| {
+            if preset_flag {
+                c.cancel();
+            }
+            op.exec(c, &p.slot)
+        })
+    }));
+    let end = Instant::now();
+    let sites = hook::take_recording().into_iter().map(|(f, l)| (norm_file(&f), l)).collect();
+    *p.slot.lock().unwrap() = None; // break the Arc cycle context -> callback -> slot -> context
+    let suffix_ms = p.last_tick.lock().unwrap().map(|t| end.duration_since(t).as_millis()).unwrap_or(0);
+    let trace = p.trace.lock().unwrap().clone();
+    Outcome { res, seen: p.count.load(Ordering::SeqCst), sites, trace, suffix_ms }
+}
+
+fn sites_str(s: &[(String, u32)]) -> String {
+    if s.is_empty() {
+        "-".to_string()
+    } else {
+        s.iter().map(|(f, l)| format!("{f}:{l}")).collect::<Vec<_>>().join(",")
+    }
+}
+
 pub fn run(run: &mut Run, rng: &mut Rng) {
-    run.rule = "operations = read of every freshly signed asset, sign of every writable container, ingredient import (signed JPEG/PNG into JPEG); for each, every callback index k of the recorded uncancelled trace is cancelled once (exhaustive in k), plus the pre-set cancel flag; thorough adds cancel() from another thread at random delays. non-trivial = a cancelled run whose k-th tick was reached; distinct by (operation, k)".to_string();
+    run.rule = "operations = read (embedded data-hash / box-hash / BMFF, sidecar, fragmented BMFF, fixtures with ingredients, freshly built nested ingredient trees), sign of every writable container, ingredient import, placeholder / embeddable flows (update_hash_from_stream with DataHash, BoxHash, BmffHash; data_hashed_placeholder), and the async twins; for each, every callback index k of the recorded uncancelled trace is cancelled (exhaustive in k) three ways: callback answers false, cancel() inside the callback, cancel() from a second thread during the callback; plus the pre-set cancel flag; the (file,line) of every checkpoint a run reached is sent to the model, which looks it up in the table regenerated from the sources; cancel() from another thread at random delays for every operation (3 per operation, thorough 40; thorough also takes the larger source files and more ingredient trees); remote-manifest reads and an OCSP-fetching read go through an in-process HTTP transport. non-trivial = a cancelled run whose k-th tick was reached; distinct by (operation, mode, k)".to_string();
     let thorough = run.thorough();
     let max_src = if thorough { 2_600_000 } else { 450_000 };
     let mut ops: Vec<Op> = vec![];
     let mut first_signed: Vec<(String, Arc<Vec<u8>>)> = vec![];
+    let mut n_async_sign = 0;
     for (fmt, name) in unsigned_sources() {
         let src = match std::fs::read(fixtures().join(name)) {
             Ok(s) if s.len() <= max_src => Arc::new(s),
             _ => continue,
         };
-        ops.push(Op::Sign { fmt: fmt.to_string(), src: src.clone() });
-        match guarded(|| sign_asset(fmt, &src, Some(settings()))) {
+        ops.push(Op::Sign { fmt: fmt.to_string(), src: src.clone(), is_async: false });
+        if n_async_sign < 20 {
+            n_async_sign += 1;
+            ops.push(Op::Sign { fmt: fmt.to_string(), src: src.clone(), is_async: true });
+        }
+        match guarded(|| sign_asset(fmt, &src, Some(BASE))) {
             Ok(Ok(signed)) => {
                 let signed = Arc::new(signed);
                 if first_signed.len() < 2 {
                     first_signed.push((fmt.to_string(), signed.clone()));
                 }
-                ops.push(Op::Read { fmt: fmt.to_string(), asset: signed });
+                ops.push(Op::Read { fmt: fmt.to_string(), asset: signed.clone(), tag: "data".into(), is_async: false, tree: None });
+                {
+                    ops.push(Op::Read { fmt: fmt.to_string(), asset: signed, tag: "data".into(), is_async: true, tree: None });
+                }
             }
             other => run.notes.push(format!("could not sign {name}: {:?}", other.map(|r| r.map(|v| v.len())))),
         }
@@ -174,9 +500,8 @@ pub fn run(run: &mut Run, rng: &mut Rng) {
             if src.len() > max_src.max(800_000) {
                 continue;
             }
-            let st = r#"{"verify":{"remote_manifest_fetch":false,"ocsp_fetch":false},"core":{"prefer_compress_manifests":true}}"#;
-            match guarded(|| sign_asset(fmt, &src, Some(st))) {
-                Ok(Ok(signed)) => ops.push(Op::Read { fmt: fmt.to_string(), asset: Arc::new(signed) }),
+            match guarded(|| sign_asset(fmt, &src, Some(BOX))) {
+                Ok(Ok(signed)) => ops.push(Op::Read { fmt: fmt.to_string(), asset: Arc::new(signed), tag: "box".into(), is_async: false, tree: None }),
                 other => run.notes.push(format!("could not box-hash sign {name}: {:?}", other.map(|r| r.map(|v| v.len())))),
             }
         }
@@ -184,37 +509,127 @@ pub fn run(run: &mut Run, rng: &mut Rng) {
     // fixtures that already carry manifests with ingredients
     for (fmt, name) in [("image/jpeg", "CACA.jpg"), ("image/jpeg", "C.jpg")] {
         if let Ok(d) = std::fs::read(fixtures().join(name)) {
-            ops.push(Op::Read { fmt: fmt.to_string(), asset: Arc::new(d) });
+            ops.push(Op::Read { fmt: fmt.to_string(), asset: Arc::new(d), tag: name.to_string(), is_async: false, tree: None });
         }
     }
     if let Ok(src) = std::fs::read(fixtures().join("IMG_0003.jpg")) {
         let src = Arc::new(src);
-        for (ing_fmt, ing) in &first_signed {
-            ops.push(Op::Ingredient { fmt: "image/jpeg".to_string(), src: src.clone(), ing_fmt: ing_fmt.clone(), ing: ing.clone() });
+        for (i, (ing_fmt, ing)) in first_signed.iter().enumerate() {
+            ops.push(Op::Ingredient { fmt: "image/jpeg".to_string(), src: src.clone(), ing_fmt: ing_fmt.clone(), ing: ing.clone(), is_async: false });
+            if i == 0 {
+                ops.push(Op::Ingredient { fmt: "image/jpeg".to_string(), src: src.clone(), ing_fmt: ing_fmt.clone(), ing: ing.clone(), is_async: true });
+            }
+        }
+        // sidecar: manifest kept out of the asset, read back with manifest data + stream
+        let side = guarded(std::panic::AssertUnwindSafe(|| -> c2pa::Result<Vec<u8>> {
+            let ctx = Context::new().with_settings(BASE)?.with_signer(EphemeralSigner::new("verif.test")?);
+            let mut b = Builder::from_context(ctx).with_definition(definition("c23 sidecar", "image/jpeg").as_str())?;
+            b.set_no_embed(true);
+            let mut out = Cursor::new(Vec::new());
+            b.save_to_stream("image/jpeg", &mut Cursor::new(src.as_ref().clone()), &mut out)
+        }));
+        match side {
+            Ok(Ok(manifest)) => {
+                let manifest = Arc::new(manifest);
+                for is_async in [false, true] {
+                    ops.push(Op::Sidecar { fmt: "image/jpeg".into(), manifest: manifest.clone(), asset: src.clone(), is_async });
+                }
+            }
+            other => run.notes.push(format!("could not produce a sidecar manifest: {:?}", other.map(|r| r.map(|v| v.len()).map_err(|e| err_class(&e))))),
+        }
+        // remote manifest: not embedded, the asset's XMP names the URL, the transport serves the bytes
+        let remote = guarded(std::panic::AssertUnwindSafe(|| -> c2pa::Result<(Vec<u8>, Vec<u8>)> {
+            let ctx = Context::new().with_settings(BASE)?.with_signer(EphemeralSigner::new("verif.test")?);
+            let mut b = Builder::from_context(ctx).with_definition(definition("c23 remote", "image/jpeg").as_str())?;
+            b.set_no_embed(true);
+            b.set_remote_url("http://manifests.verif.test/c23.c2pa");
+            let mut out = Cursor::new(Vec::new());
+            let m = b.save_to_stream("image/jpeg", &mut Cursor::new(src.as_ref().clone()), &mut out)?;
+            Ok((out.into_inner(), m))
+        }));
+        match remote {
+            Ok(Ok((asset, manifest))) => {
+                let (asset, manifest) = (Arc::new(asset), Arc::new(manifest));
+                for is_async in [false, true] {
+                    ops.push(Op::Remote { asset: asset.clone(), manifest: manifest.clone(), is_async });
+                }
+            }
+            other => run.notes.push(format!("could not produce an asset with a remote manifest: {:?}", other.map(|r| r.map(|v| v.0.len()).map_err(|e| err_class(&e))))),
+        }
+        // placeholder / embeddable flows
+        ops.push(Op::Embeddable { kind: "data", fmt: "image/jpeg".into(), src: src.clone() });
+        ops.push(Op::Embeddable { kind: "box", fmt: "image/jpeg".into(), src: src.clone() });
+        ops.push(Op::Embeddable { kind: "placeholder", fmt: "image/jpeg".into(), src: src.clone() });
+        for is_async in [false, true] {
+            ops.push(Op::DataHashed { src: src.clone(), is_async });
+        }
+        // nested ingredient trees
+        use Ing::{Manifest as M, Plain as P};
+        let mut trees: Vec<Vec<Ing>> = vec![
+            vec![P, P, P],
+            vec![M(vec![P]), P],
+            vec![M(vec![P, P]), P],
+            vec![P, M(vec![P, P]), P],
+            vec![M(vec![M(vec![P, P]), P]), P],
+        ];
+        if thorough {
+            trees.push(vec![M(vec![]), M(vec![P, P, P]), P, P]);
+            trees.push(vec![M(vec![P, M(vec![P, P, P])]), M(vec![P]), P]);
+        }
+        for t in trees {
+            match guarded(std::panic::AssertUnwindSafe(|| build_tree(&t, &src))) {
+                Ok(Ok(a)) => ops.push(Op::Read { fmt: "image/jpeg".into(), asset: Arc::new(a), tag: format!("tree-{}", shape(&t)), is_async: false, tree: Some(shape(&t)) }),
+                other => run.notes.push(format!("could not build ingredient tree {}: {:?}", shape(&t), other.map(|r| r.map(|v| v.len()).map_err(|e| err_class(&e))))),
+            }
+        }
+    }
+    for name in ["ocsp.jpg", "ocsp_with_assertion.jpg"] {
+        if let Ok(d) = std::fs::read(fixtures().join(name)) {
+            ops.push(Op::Ocsp { asset: Arc::new(d) });
+        }
+    }
+    if let Ok(mp4) = std::fs::read(fixtures().join("video1_no_manifest.mp4")) {
+        if mp4.len() <= max_src.max(1_000_000) {
+            ops.push(Op::Embeddable { kind: "bmff", fmt: "video/mp4".into(), src: Arc::new(mp4) });
+        }
+    }
+    if let (Ok(init), Ok(frag)) = (std::fs::read(fixtures().join("dashinit.mp4")), std::fs::read(fixtures().join("dash1.m4s"))) {
+        let (init, frag) = (Arc::new(init), Arc::new(frag));
+        for is_async in [false, true] {
+            ops.push(Op::Fragment { init: init.clone(), frag: frag.clone(), is_async });
         }
     }
 
+    let mut suffix_max: u128 = 0;
     for op in &ops {
-        // uncancelled run: record the trace
-        let trace: Trace = Default::default();
-        let count = Arc::new(AtomicUsize::new(0));
-        let base = guarded(std::panic::AssertUnwindSafe(|| ctx_with(None, trace.clone(), count.clone()).and_then(|c| op.exec(c))));
-        let base = match base {
+        // uncancelled run: record the trace and the checkpoints
+        let b = run_once(op, Mode::None, false);
+        let base = match b.res {
             Ok(Ok(s)) => s,
             other => {
                 run.notes.push(format!("{}: uncancelled run failed: {:?}", op.name(), other.map(|r| r.map_err(|e| err_class(&e)))));
                 continue;
             }
         };
-        let t = trace.lock().unwrap().clone();
+        let t = b.trace.clone();
         let n = t.len();
-        run.count(&format!("op_{}", op.name().split(':').next().unwrap_or("")));
+        suffix_max = suffix_max.max(b.suffix_ms);
+        run.count(&format!("op_{}", op.kind()));
         *run.dist.entry("ticks_total".to_string()).or_insert(0) += n as u64;
         for (p, _, _) in &t {
             run.count(&format!("phase_{p}"));
         }
+        for (f, _) in &b.sites {
+            run.count(&format!("site_file_{f}"));
+        }
 
-        // progress trace well-formedness
+        // every callback is one checkpoint: the recorded locations and the ticks line up
+        if b.sites.len() != n {
+            let idx = run.reqs.len().saturating_sub(1);
+            run.fail(idx, "checkpoint-without-callback", format!("{}: {} checkpoints recorded but {n} callbacks", op.name(), b.sites.len()));
+        }
+
+        // progress trace well-formedness (strict)
         let tr = t.iter().map(|(p, s, tt)| format!("{p}:{s}:{tt}")).collect::<Vec<_>>().join(",");
         let wf = wf_oracle(&t);
         let idx = run.case(format!("C23 wf trace={}", if tr.is_empty() { "-".to_string() } else { tr }), if wf.is_none() { "wf".to_string() } else { "bad".to_string() });
@@ -222,122 +637,142 @@ pub fn run(run: &mut Run, rng: &mut Rng) {
             run.fail(idx, "progress-trace-ill-formed", format!("{}: {d}", op.name()));
         }
 
-        // cancel at every k
-        for k in 0..n {
-            let trace_k: Trace = Default::default();
-            let count_k = Arc::new(AtomicUsize::new(0));
-            let res = guarded(std::panic::AssertUnwindSafe(|| ctx_with(Some(k), trace_k.clone(), count_k.clone()).and_then(|c| op.exec(c))));
-            let seen = count_k.load(Ordering::SeqCst);
-            // The number of ticks of one operation is not a constant (e.g. the number of hashed
-            // ranges depends on the parity of the freshly generated manifest's size), so a rerun
-            // may finish before reaching invocation k; such a rerun is a finished, uncancelled run.
-            let reached = seen > k;
-            let (imp, bad): (String, Option<(String, String)>) = match res {
-                Err(p) => (format!("panic {seen}"), Some(("panic".to_string(), format!("panic: {p}")))),
-                Ok(Err(Error::OperationCancelled)) => (format!("cancelled {seen}"), None),
-                Ok(Err(e)) => (
-                    format!("err:{} {seen}", err_class(&e)),
-                    Some(("cancel-reported-as-other-error".to_string(), format!("callback false at tick {k} ({:?}) gave error {} instead of OperationCancelled", t.get(k), err_class(&e)))),
-                ),
-                Ok(Ok(_)) if !reached => (format!("finished {seen}"), None),
-                Ok(Ok(s)) => (
-                    format!("finished {seen}"),
-                    Some((format!("cancel-swallowed:{}", t.get(k).map(|x| x.0.clone()).unwrap_or_default()), format!("callback false at tick {k} ({:?}) but the operation returned Ok ({s}); uncancelled result {base}", t.get(k)))),
-                ),
-            };
-            let req = format!("C23 cancel n={} k={k}", if reached { n.max(seen) } else { seen });
-            if reached {
-                run.nontrivial(format!("{} {k}", op.name()));
-            }
-            let idx = run.case(req, imp);
-            if let Some((class, detail)) = bad {
-                run.fail(idx, &class, format!("{}: {detail}", op.name()));
-            } else if reached && seen != k + 1 {
-                run.fail(idx, "callback-after-cancel", format!("{}: callback false at tick {k} but {seen} callbacks were observed", op.name()));
+        // ingredient tick emitter: the VerifyingIngredient / VerifyingSignature ticks of the read,
+        // after the active manifest's own signature tick, against the model's emitter
+        if let Op::Read { tree: Some(sh), .. } = op {
+            let got: Vec<String> = t
+                .iter()
+                .filter(|(p, _, _)| p == "VerifyingIngredient" || p == "VerifyingSignature")
+                .skip(1)
+                .map(|(p, s, tt)| format!("{p}:{s}:{tt}"))
+                .collect();
+            run.case(format!("C23 ingtree shape={sh}"), if got.is_empty() { "-".to_string() } else { got.join(",") });
+            run.nontrivial(format!("ingtree {sh}"));
+            if !sh.contains('m') {
+                let flat: Vec<String> = t.iter().filter(|(p, _, _)| p == "VerifyingIngredient").map(|(p, s, tt)| format!("{p}:{s}:{tt}")).collect();
+                run.case(format!("C23 ingticks n={}", sh.len()), if flat.is_empty() { "-".to_string() } else { flat.join(",") });
             }
         }
 
-        // Context::cancel() called from inside the callback of invocation k
-        for k in 0..n {
-            let slot: Slot = Default::default();
-            let count_k = Arc::new(AtomicUsize::new(0));
-            let res = guarded(std::panic::AssertUnwindSafe(|| {
-                ctx_cancelling_in_callback(k, slot.clone(), count_k.clone()).and_then(|c| op.exec_shared(c, Some(&slot)))
-            }));
-            *slot.lock().unwrap() = None; // break the Arc cycle
-            let seen = count_k.load(Ordering::SeqCst);
-            let reached = seen > k;
-            let (imp, bad): (String, Option<(String, String)>) = match res {
-                Err(p) => (format!("panic {seen}"), Some(("panic".to_string(), format!("panic: {p}")))),
-                Ok(Err(Error::OperationCancelled)) => (format!("cancelled {seen}"), None),
-                Ok(Err(e)) => (format!("err:{} {seen}", err_class(&e)), Some(("cancel-reported-as-other-error".to_string(), format!("Context::cancel() inside callback {k} ({:?}) gave error {}", t.get(k), err_class(&e))))),
-                Ok(Ok(_)) if !reached => (format!("finished {seen}"), None),
-                Ok(Ok(s)) => (format!("finished {seen}"), Some((format!("cancel-swallowed:{}", t.get(k).map(|x| x.0.clone()).unwrap_or_default()), format!("Context::cancel() called inside callback {k} ({:?}) but the operation returned Ok ({s})", t.get(k))))),
-            };
-            let req = format!("C23 cancelin n={} k={k}", if reached { n.max(seen) } else { seen });
-            if reached {
-                run.nontrivial(format!("{} in {k}", op.name()));
-            }
-            let idx = run.case(req, imp);
-            if let Some((class, detail)) = bad {
-                run.fail(idx, &class, format!("{}: {detail}", op.name()));
-            } else if reached && seen != k + 1 {
-                run.fail(idx, "callback-after-cancel", format!("{}: cancel() inside callback {k} but {seen} callbacks were observed", op.name()));
+        // which k get the (longer) `seq` request as well: all of a short trace, a sample of a long one
+        let seq_k = |k: usize| n <= 40 || k < 6 || k + 3 >= n || k % (n / 24).max(1) == 0;
+
+        for (mname, mk) in [("false", 0usize), ("cancel", 1), ("thread", 2)] {
+            for k in 0..n {
+                let mode = match mk {
+                    0 => Mode::False(k),
+                    1 => Mode::CancelIn(k),
+                    _ => Mode::CancelThread(k),
+                };
+                let o = run_once(op, mode, false);
+                let seen = o.seen;
+                // The number of ticks of one operation is not a constant (e.g. the number of hashed
+                // ranges depends on the parity of the freshly generated manifest's size), so a rerun
+                // may finish before reaching invocation k; such a rerun is a finished, uncancelled run.
+                let reached = seen > k;
+                let what = match mk {
+                    0 => format!("callback false at tick {k}"),
+                    1 => format!("Context::cancel() inside callback {k}"),
+                    _ => format!("cancel() from a second thread during callback {k}"),
+                };
+                let (imp, bad): (String, Option<(String, String)>) = match o.res {
+                    Err(p) => (format!("panic {seen}"), Some(("panic".to_string(), format!("panic: {p}")))),
+                    Ok(Err(Error::OperationCancelled)) => (format!("cancelled {seen}"), None),
+                    Ok(Err(e)) => (
+                        format!("err:{} {seen}", err_class(&e)),
+                        Some(("cancel-reported-as-other-error".to_string(), format!("{what} ({:?}) gave error {} instead of OperationCancelled", t.get(k), err_class(&e)))),
+                    ),
+                    Ok(Ok(_)) if !reached => (format!("finished {seen}"), None),
+                    Ok(Ok(s)) => (
+                        format!("finished {seen}"),
+                        Some((format!("cancel-swallowed:{}", o.trace.get(k).map(|x| x.0.clone()).unwrap_or_default()), format!("{what} ({:?}) but the operation returned Ok ({s}); uncancelled result {base}", o.trace.get(k)))),
+                    ),
+                };
+                if reached {
+                    run.nontrivial(format!("{} {mname} {k}", op.name()));
+                }
+                let mut idx = None;
+                // the table-free skeleton (n propagating checkpoints) is not what the OCSP operation
+                // has (open finding swallow-site:crypto/ocsp/fetch.rs); its runs are compared through
+                // the `seq` requests only, whose skeleton comes from the source table
+                if mk < 2 && !matches!(op, Op::Ocsp { .. }) {
+                    let req = format!("C23 {} n={} k={k}", if mk == 0 { "cancel" } else { "cancelin" }, if reached { n.max(seen) } else { seen });
+                    idx = Some(run.case(req, imp.clone()));
+                }
+                if seq_k(k) && o.sites.len() == seen {
+                    // the checkpoints this very run reached, looked up in the source table by the model
+                    idx = Some(run.case(format!("C23 seq mode={mname} k={k} sites={}", sites_str(&o.sites)), imp.clone()));
+                    run.count("seq_requests");
+                } else if o.sites.len() != seen {
+                    let i = run.reqs.len().saturating_sub(1);
+                    run.fail(i, "checkpoint-without-callback", format!("{}: {what}: {} checkpoints recorded but {seen} callbacks", op.name(), o.sites.len()));
+                }
+                let idx = idx.unwrap_or_else(|| run.reqs.len().saturating_sub(1));
+                if let Some((class, detail)) = bad {
+                    run.fail(idx, &class, format!("{}: {detail}", op.name()));
+                } else if reached && seen != k + 1 {
+                    let class = match o.trace.get(k) {
+                        Some((p, _, _)) if p == "FetchingOCSP" => "cancel-deferred:FetchingOCSP".to_string(),
+                        _ => "callback-after-cancel".to_string(),
+                    };
+                    run.fail(idx, &class, format!("{}: {what} ({:?}) but {seen} callbacks were observed", op.name(), o.trace.get(k)));
+                }
             }
         }
 
         // cancel flag set before the operation starts
         if n > 0 {
-            let trace_f: Trace = Default::default();
-            let count_f = Arc::new(AtomicUsize::new(0));
-            let res = guarded(std::panic::AssertUnwindSafe(|| {
-                ctx_with(None, trace_f.clone(), count_f.clone()).and_then(|c| {
-                    c.cancel();
-                    op.exec(c)
-                })
-            }));
-            let seen = count_f.load(Ordering::SeqCst);
-            let imp = match &res {
+            let o = run_once(op, Mode::None, true);
+            let seen = o.seen;
+            let imp = match &o.res {
                 Ok(Err(Error::OperationCancelled)) => format!("cancelled {seen}"),
                 Ok(Err(e)) => format!("err:{} {seen}", err_class(e)),
                 Ok(Ok(_)) => format!("ok {seen}"),
                 Err(_) => format!("panic {seen}"),
             };
             let idx = run.case(format!("C23 flag n={n}"), imp);
-            if !matches!(res, Ok(Err(Error::OperationCancelled))) {
-                run.fail(idx, "cancel-flag-ignored", format!("{}: context cancelled before the operation, result {:?}", op.name(), res.map(|r| r.map_err(|e| err_class(&e)))));
+            if !matches!(o.res, Ok(Err(Error::OperationCancelled))) {
+                run.fail(idx, "cancel-flag-ignored", format!("{}: context cancelled before the operation, result {:?}", op.name(), o.res.map(|r| r.map_err(|e| err_class(&e)))));
             } else {
                 run.nontrivial(format!("{} flag", op.name()));
             }
         }
 
-        // cancel() from another thread at random delays: result is Ok(= uncancelled) or OperationCancelled
-        if thorough {
-            for _ in 0..6 {
-                let delay_us = rng.below(4000);
-                let trace_t: Trace = Default::default();
-                let count_t = Arc::new(AtomicUsize::new(0));
-                let ctx = match ctx_with(None, trace_t, count_t) {
-                    Ok(c) => Arc::new(c),
-                    Err(_) => continue,
-                };
-                let c2 = ctx.clone();
+        // cancel() from another thread at random delays: the result is the uncancelled one or
+        // OperationCancelled, and once cancelled no further callback is made
+        {
+            for _ in 0..(if thorough { 40 } else { 3 }) {
+                let delay_us = rng.below(3000);
+                let p = Probe::new();
+                let slot = p.slot.clone();
+                let stop = Arc::new(AtomicUsize::new(0));
+                let stop2 = stop.clone();
                 let h = std::thread::spawn(move || {
-                    std::thread::sleep(std::time::Duration::from_micros(delay_us));
-                    c2.cancel();
+                    // wait until the operation has published its context, then cancel after the delay
+                    loop {
+                        if let Some(c) = slot.lock().unwrap().clone() {
+                            std::thread::sleep(std::time::Duration::from_micros(delay_us));
+                            c.cancel();
+                            return;
+                        }
+                        if stop2.load(Ordering::SeqCst) == 1 {
+                            return;
+                        }
+                        std::thread::yield_now();
+                    }
                 });
-                let opc = op.clone();
-                let res = guarded(std::panic::AssertUnwindSafe(|| match &opc {
-                    Op::Read { fmt, asset } => Reader::from_shared_context(&ctx)
-                        .with_stream(fmt, Cursor::new(asset.as_ref().clone()))
-                        .map(|r| format!("{:?}", r.validation_state())),
-                    _ => Err(Error::OperationCancelled),
-                }));
+                let res = guarded(std::panic::AssertUnwindSafe(|| p.ctx(op.settings(), Mode::None).and_then(|c| op.exec(c, &p.slot))));
+                stop.store(1, Ordering::SeqCst);
                 let _ = h.join();
+                *p.slot.lock().unwrap() = None;
                 run.count("threaded_cancel");
                 match res {
-                    Ok(Ok(s)) if s == base => {}
-                    Ok(Err(Error::OperationCancelled)) => {}
+                    Ok(Ok(s)) if s == base || s.starts_with("signed ") || s.starts_with("embeddable ") => {
+                        run.count("threaded_cancel_finished");
+                    }
+                    Ok(Err(Error::OperationCancelled)) => {
+                        run.count("threaded_cancel_cancelled");
+                    }
                     other => {
                         let idx = run.reqs.len().saturating_sub(1);
                         run.fail(idx, "threaded-cancel-misreported", format!("{}: cancel() after {delay_us}us gave {:?} (uncancelled: {base})", op.name(), other.map(|r| r.map_err(|e| err_class(&e)))));
@@ -346,4 +781,5 @@ pub fn run(run: &mut Run, rng: &mut Rng) {
             }
         }
     }
+    run.dist.insert("checkpoint_free_suffix_ms_max".to_string(), suffix_max as u64);
 }
